@@ -1059,29 +1059,41 @@ impl ASN1Value {
             | (ASN1Type::Set(_), ASN1Value::ObjectIdentifier(val))
             | (ASN1Type::Sequence(_), ASN1Value::ObjectIdentifier(val)) => {
                 // Object identifier values and sequence-like values cannot be properly distinguished
-                let mut pseudo_arcs = std::mem::take(&mut val.0);
-                let struct_value = pseudo_arcs
-                    .chunks_mut(2)
-                    .map(|chunk| {
-                        let err = || GrammarError {
-                            pdu: None,
-                            details:
-                                "Failed to interpret object identifier value as sequence value!"
-                                    .into(),
-                            kind: GrammarErrorType::LinkerError,
-                        };
-                        if let [id, val] = chunk {
-                            val.number
-                                .and_then(|n| <u128 as TryInto<i128>>::try_into(n).ok())
-                                .ok_or_else(err)
-                                .map(|number| {
-                                    (id.name.take(), Box::new(ASN1Value::Integer(number)))
-                                })
-                        } else {
-                            Err(err())
-                        }
-                    })
-                    .collect::<Result<Vec<_>, _>>()?;
+                let err = || GrammarError {
+                    pdu: None,
+                    details: "Failed to interpret object identifier value as sequence value!"
+                        .into(),
+                    kind: GrammarErrorType::LinkerError,
+                };
+                let arc_value = |arc: &ObjectIdentifierArc| match (&arc.name, arc.number) {
+                    (None, Some(n)) => <u128 as TryInto<i128>>::try_into(n)
+                        .map(ASN1Value::Integer)
+                        .map_err(|_| err()),
+                    (Some(identifier), None) => Ok(ASN1Value::ElsewhereDeclaredValue {
+                        module: None,
+                        parent: None,
+                        identifier: identifier.clone(),
+                    }),
+                    _ => Err(err()),
+                };
+                let struct_value = if matches!(ty, ASN1Type::SetOf(_) | ASN1Type::SequenceOf(_)) {
+                    // `{ 7 }` or `{ a }`: a list with a single element
+                    val.0
+                        .iter()
+                        .map(|arc| arc_value(arc).map(|v| (None, Box::new(v))))
+                        .collect::<Result<Vec<_>, _>>()?
+                } else {
+                    val.0
+                        .chunks(2)
+                        .map(|chunk| {
+                            if let [id, val] = chunk {
+                                arc_value(val).map(|v| (id.name.clone(), Box::new(v)))
+                            } else {
+                                Err(err())
+                            }
+                        })
+                        .collect::<Result<Vec<_>, _>>()?
+                };
                 *self = ASN1Value::SequenceOrSet(struct_value);
                 self.link_with_type(tlds, ty, type_name)
             }
